@@ -135,18 +135,33 @@ theorem msb0Window_eq_s (n a b : Nat) (hab : a ≤ b) (hb : b ≤ n) :
     msb0Window n a b = .ok (n - b, n - a) := by
   have ha0 : ¬ ((a : Int) < 0) := by omega
   have hb0 : ¬ ((b : Int) < 0) := by omega
-  simp only [msb0Window, offsetSliceLsb0, indices, Py.sliceIndices, validateSlice]
-  simp only [ha0, hb0, if_false, Int.ediv_one, Int.mul_one]
   have h10 : ¬ ((1:Int) < 0) := by omega
-  simp only [h10, if_false]
-  have e1 : min (a:Int) n = a := by omega
-  have e2 : min (b:Int) n = b := by omega
-  simp only [e1, e2]
-  have e3 : ¬ ((n:Int) - (a + (b - 1 - a)) - 1 < 0) := by omega
-  have e4 : ¬ ((n:Int) - a < 0) := by omega
-  simp only [e3, e4, if_false]
-  rw [if_pos (by omega)]
-  congr 2 <;> omega
+  have hr : Py.sliceIndices (some (a : Int)) (some (b : Int)) 1 n = ((a : Int), (b : Int), 1) := by
+    simp only [Py.sliceIndices, ha0, hb0, h10, if_false]
+    congr 1
+    · omega
+    · congr 1; omega
+  have hcnt : Py.rangeLen (a : Int) (b : Int) 1 = b - a := by
+    unfold Py.rangeLen
+    simp only [gt_iff_lt, Int.one_pos, if_true]
+    split <;> omega
+  unfold msb0Window offsetSliceLsb0
+  simp only [Option.getD_none, hr, hcnt, show ((1 : Int) = 0) = False by simp, if_false,
+    show ((1 : Int) > 0) = True by simp, if_true]
+  by_cases hc : b - a = 0
+  · simp only [hc, if_true]
+    unfold validateSlice
+    have e3 : ¬ ((n:Int) - a < 0) := by omega
+    simp only [e3, if_false]
+    rw [if_pos (by omega)]
+    congr 2 <;> omega
+  · simp only [hc, if_false]
+    unfold validateSlice
+    have e3 : ¬ ((n:Int) - (a + (((b - a : Nat) : Int) - 1) * 1) - 1 < 0) := by omega
+    have e4 : ¬ ((n:Int) - a < 0) := by omega
+    simp only [e3, e4, if_false]
+    rw [if_pos (by omega)]
+    congr 2 <;> omega
 
 
 theorem validateSlice_bounds_s {n : Nat} {start stop : Option Int} {a b : Nat}
@@ -245,17 +260,17 @@ theorem findallMsb0_eq_s (L T : Bits) (a b : Nat) (count : Option Nat) (ba : Boo
 theorem alignedB_iff_s (ba : Bool) (q : Nat) : alignedB ba q = true ↔ (¬ ba = true ∨ q % 8 = 0) := by
   cases ba <;> simp [alignedB]
 
-theorem drainFoundFixed_fst_s (n m : Nat) (count : Option Nat) (ba : Bool) :
-    ∀ (xs : List Nat) (c : Nat), (drainFoundFixed n m count ba xs c).1 =
+theorem drainFound_fst_s (n m : Nat) (count : Option Nat) (ba : Bool) :
+    ∀ (xs : List Nat) (c : Nat), (drainFound n m count ba xs c).1 =
       match count with
       | none => (xs.map fun p => n - p - m).filter (alignedB ba)
       | some k => ((xs.map fun p => n - p - m).filter (alignedB ba)).take (k - c) := by
   intro xs
   induction xs with
-  | nil => intro c; cases count <;> simp [drainFoundFixed]
+  | nil => intro c; cases count <;> simp [drainFound]
   | cons p rest ih =>
     intro c
-    simp only [drainFoundFixed]
+    simp only [drainFound]
     simp only [List.map_cons, List.filter_cons, alignedB_iff_s]
     by_cases hal : (¬ ba = true ∨ (n - p - m) % 8 = 0)
     · simp only [hal, if_true]
@@ -274,49 +289,17 @@ theorem drainFoundFixed_fst_s (n m : Nat) (count : Option Nat) (ba : Bool) :
     · simp only [hal, if_false]
       exact ih c
 
-theorem drainFound_fst_s (n m : Nat) (count : Option Nat) (ba : Bool) (h : countAligned count ba = false) :
-    ∀ (xs : List Nat) (c : Nat), (drainFound n m count ba xs c).1 =
-      match count with
-      | none => (xs.map fun p => n - p - m).filter (alignedB ba)
-      | some k => ((xs.map fun p => n - p - m).filter (alignedB ba)).take (k - c) := by
+theorem drainFound_append_s (n m : Nat) (count : Option Nat) (ba : Bool) (ys : List Nat) :
+    ∀ (xs : List Nat) (c : Nat), (drainFound n m count ba (xs ++ ys) c).1 =
+      if (drainFound n m count ba xs c).2.2 then (drainFound n m count ba xs c).1
+      else (drainFound n m count ba xs c).1 ++
+        (drainFound n m count ba ys (drainFound n m count ba xs c).2.1).1 := by
   intro xs
   induction xs with
-  | nil => intro c; cases count <;> simp [drainFound]
+  | nil => intro c; simp [drainFound]
   | cons p rest ih =>
     intro c
-    simp only [drainFound]
-    simp only [List.map_cons, List.filter_cons, alignedB_iff_s]
-    cases count with
-    | none =>
-      simp only [Bool.false_eq_true, if_false]
-      rw [ih (c + 1)]
-    | some k =>
-      have hba : ba = false := by
-        cases ba
-        · rfl
-        · simp [countAligned] at h
-      subst hba
-      simp only [ge_iff_le, decide_eq_true_eq, Bool.false_eq_true, not_false_eq_true, true_or, if_true]
-      by_cases hk : k ≤ c
-      · simp only [hk, if_true]
-        have : k - c = 0 := by omega
-        rw [this]; rfl
-      · simp only [hk, if_false]
-        rw [ih (c + 1)]
-        have : k - c = (k - (c + 1)) + 1 := by omega
-        simp only [this, List.take_succ_cons]
-
-theorem drainFoundFixed_append_s (n m : Nat) (count : Option Nat) (ba : Bool) (ys : List Nat) :
-    ∀ (xs : List Nat) (c : Nat), (drainFoundFixed n m count ba (xs ++ ys) c).1 =
-      if (drainFoundFixed n m count ba xs c).2.2 then (drainFoundFixed n m count ba xs c).1
-      else (drainFoundFixed n m count ba xs c).1 ++
-        (drainFoundFixed n m count ba ys (drainFoundFixed n m count ba xs c).2.1).1 := by
-  intro xs
-  induction xs with
-  | nil => intro c; simp [drainFoundFixed]
-  | cons p rest ih =>
-    intro c
-    simp only [List.cons_append, drainFoundFixed]
+    simp only [List.cons_append, drainFound]
     by_cases hal : (¬ ba = true ∨ (n - p - m) % 8 = 0)
     · simp only [hal, if_true]
       cases count with
@@ -359,79 +342,52 @@ theorem findallMsb0_none_false_s (l t : Bits) (a b : Nat) : findallMsb0 l t a b 
 
 theorem fixedLoop_eq_s (inc : Nat) (hinc : 1 ≤ inc) (l t : Bits) (ht : t ≠ []) (s0 : Nat) (count : Option Nat) (ba : Bool) :
     ∀ (fuel hi c : Nat), s0 ≤ hi → hi - s0 < fuel →
-      findallLsb0FixedLoop inc l t s0 count ba fuel hi c
-        = (drainFoundFixed l.length t.length count ba (search l t s0 hi).reverse c).1 := by
+      findallLsb0Loop inc l t s0 count ba fuel hi c
+        = (drainFound l.length t.length count ba (search l t s0 hi).reverse c).1 := by
   have hm : 1 ≤ t.length := by cases t <;> simp_all
   intro fuel
   induction fuel with
   | zero => intro hi c _ h; omega
   | succ fuel ih =>
     intro hi c hs hf
-    simp only [findallLsb0FixedLoop, findallMsb0_none_false_s]
+    simp only [findallLsb0Loop, findallMsb0_none_false_s]
     by_cases hpos : max s0 (hi - (inc + t.length)) = s0
     · simp only [hpos, if_true, ite_self]
     · simp only [hpos, if_false]
       have hsplit := search_split_s l t s0 (max s0 (hi - (inc + t.length))) hi ht (by omega) (by omega)
       rw [ih _ _ (by omega) (by omega)]
-      conv_rhs => rw [hsplit, List.reverse_append, drainFoundFixed_append_s]
+      conv_rhs => rw [hsplit, List.reverse_append, drainFound_append_s]
 
 theorem findall_fixed_chunks_eq_s (inc : Nat) (hinc : 1 ≤ inc) (l t : Bits) (a b : Nat) (count : Option Nat) (ba : Bool)
     (hab : a ≤ b) (hb : b ≤ l.length) (ht : t ≠ []) :
-    findallLsb0Fixed inc l t a b count ba = .ok (findallMsb0 l.reverse t.reverse a b count ba) := by
-  have htr : t.reverse ≠ [] := by simpa using ht
-  unfold findallLsb0Fixed
-  rw [msb0Window_eq_s _ _ _ hab hb]
-  dsimp only
-  rw [fixedLoop_eq_s inc hinc l t ht _ count ba _ _ _ (by omega) (by omega), drainFoundFixed_fst_s,
-    findallMsb0_eq_s _ _ _ _ _ _ htr, search_reverse_s l t a b hab hb ht]
-  cases count <;> simp only [List.map_reverse, Nat.sub_zero]
-
-theorem findall_lsb0_chunks_eq_partial_s (inc : Nat) (l t : Bits) (a b : Nat) (count : Option Nat) (ba : Bool)
-    (hab : a ≤ b) (hb : b ≤ l.length) (ht : t ≠ [])
-    (hchunk : multiChunk inc t.length a b = false) (hcount : countAligned count ba = false) :
     findallLsb0 inc l t a b count ba = .ok (findallMsb0 l.reverse t.reverse a b count ba) := by
   have htr : t.reverse ≠ [] := by simpa using ht
-  have hc : b - a ≤ inc + t.length := by simpa [multiChunk] using hchunk
   unfold findallLsb0
   rw [msb0Window_eq_s _ _ _ hab hb]
   dsimp only
-  have e1 : min (inc + t.length) (l.length - a - (l.length - b)) = l.length - a - (l.length - b) := by omega
-  have e2 : max (l.length - b) (l.length - a - (l.length - a - (l.length - b))) = l.length - b := by omega
-  have e3 : l.length - b + (l.length - a - (l.length - b)) = l.length - a := by omega
-  rw [e1, e2]
-  have hloop : findallLsb0Loop inc l t (l.length - b) (l.length - a - (l.length - b)) count ba (l.length + 2) (l.length - b) 0
-      = (drainFound l.length t.length count ba (search l t (l.length - b) (l.length - a)).reverse 0).1 := by
-    simp only [findallLsb0Loop, findallMsb0_none_false_s, e3]
-    have e4 : max (l.length - b) (l.length - b - inc) = l.length - b := by omega
-    simp only [e4, if_true, ite_self]
-    split
-    · rename_i h0; rw [h0]; rfl
-    · rfl
-  rw [hloop, drainFound_fst_s _ _ _ _ hcount,
+  rw [fixedLoop_eq_s inc hinc l t ht _ count ba _ _ _ (by omega) (by omega), drainFound_fst_s,
     findallMsb0_eq_s _ _ _ _ _ _ htr, search_reverse_s l t a b hab hb ht]
   cases count <;> simp only [List.map_reverse, Nat.sub_zero]
 
-theorem countAligned_map_s {α β} (f : α → β) (count : Option α) (ba : Bool) :
-    countAligned (count.map f) ba = countAligned count ba := by
-  cases count <;> rfl
+theorem chunkIncrement_pos_s (t : Bits) : 1 ≤ chunkIncrement t := by
+  unfold chunkIncrement; omega
 
-theorem findall_lsb0_mirror_partial_s (l t : Bits) (start stop : Option Int) (count : Option Int) (ba : Bool)
-    (ht : t ≠ []) (hlen : l.length ≤ 8192) (hcount : countAligned count ba = false) :
+theorem findall_lsb0_mirror_s (l t : Bits) (start stop : Option Int) (count : Option Int) (ba : Bool) :
     findallOp .lsb0 l t start stop count ba = findallOp .msb0 l.reverse t.reverse start stop count ba := by
   simp only [findallOp, List.length_reverse]
   split
   · rfl
   · split
     · rfl
-    · split
+    · rename_i ht0
+      have ht : t ≠ [] := by
+        intro hh; apply ht0; rw [hh]; rfl
+      split
       · rfl
       · rename_i a b hv
         have hv' := validateSlice_bounds_s hv
         unfold findall_
         dsimp only
-        apply findall_lsb0_chunks_eq_partial_s _ l t a b _ ba hv'.1 hv'.2 ht
-        · have := hv'.1; have := hv'.2
-          simp only [multiChunk, chunkIncrement, gt_iff_lt, decide_eq_false_iff_not]; omega
-        · rw [countAligned_map_s]; exact hcount
+        exact findall_fixed_chunks_eq_s _ (chunkIncrement_pos_s t) l t a b _ ba hv'.1 hv'.2 ht
 
 end BM.C12
